@@ -15,6 +15,8 @@ def encode(parts, boundary, charset="utf-8", preamble=None, epilogue=None):
         out += b"Content-Disposition: " + disp.encode(charset) + b"\r\n"
         if p.get("ctype"):
             out += b"Content-Type: " + p["ctype"].encode(charset) + b"\r\n"
+        for k, v in p.get("extra", ()):  # further header lines of the part, as written (name spelling included)
+            out += k.encode(charset) + b": " + v.encode(charset) + b"\r\n"
         out += b"\r\n" + p["content"] + b"\r\n"
     out += b"--" + boundary + b"--\r\n"
     if epilogue is not None:
@@ -40,5 +42,7 @@ def expected_events(parts):
         headers = {"content-disposition": f'form-data; name="{p["name"]}"' + (f'; filename="{p["filename"]}"' if p.get("filename") is not None else "")}
         if p.get("ctype"):
             headers["content-type"] = p["ctype"]
+        for k, v in p.get("extra", ()):  # header names are case-insensitive; lines of one name are joined with ", " in order
+            headers[k.lower()] = (headers[k.lower()] + ", " + v) if k.lower() in headers else v
         out.append(("file" if p.get("filename") is not None else "field", p["name"], p.get("filename"), headers, p["content"]))
     return out
